@@ -3,7 +3,8 @@ EXTENDS Determinism, Json
 MCBase == << [name |-> "ma", items |-> <<Item("type", "Alpha", 0), Item("impl", "Alpha", 1), Item("type", "Beta", 0),
                                           Item("impl", "Beta", 1), Item("impl", "Alpha", 2)>>],
              [name |-> "mb", items |-> <<Item("type", "Gamma", 0), Item("impl", "Gamma", 1)>>] >>
-MCUnrelated == {"Uno", "Duo"}
+MCUnrelated == {"Uno", "Duo", "Work", "Ada", "Zen"}
+MCUnrelatedSmall == {"Uno", "Work"}
 MCNonBridge == {"free_fn", "same_named_struct", "same_named_impl", "plain_module", "constant"}
 \* negative model: also allow swapping two impl blocks of the same type
 SwapAny(m, i) ==
